@@ -650,6 +650,43 @@ def ob_potential_algebra():
     return proved("sym-exec+normal-form", "%d expressions / rejections" % n)
 
 
+def ob_combined_type():
+    """table (exhaustive, finite): for all 16 pairs of the four supported dtypes, given as names or numpy dtypes, combined_type is the smallest dtype
+    that represents both exactly: complex iff one of them is complex, with the larger of the two real precisions; other names are rejected with ValueError; check_type
+    maps None to the default."""
+    from bempp_cl.api.utils.data_types import combined_type, check_type
+
+    names = ["float32", "float64", "complex64", "complex128"]
+    prec = {"float32": 32, "float64": 64, "complex64": 32, "complex128": 64}
+    for a in names:
+        for b in names:
+            cplx = a.startswith("complex") or b.startswith("complex")
+            p_ = max(prec[a], prec[b])
+            want = np.dtype({(False, 32): "float32", (False, 64): "float64", (True, 32): "complex64", (True, 64): "complex128"}[(cplx, p_)])
+            for form in (lambda t: t, np.dtype):
+                got = combined_type(form(a), form(b))
+                if np.dtype(got) != want:
+                    return violated("combined_type(%s, %s) = %s, expected %s (a blocked operator mixing these blocks would compute in the wrong precision)" % (a, b, got, want),
+                                    witness={"dtype1": a, "dtype2": b}, signature="combined-type/%s/%s" % (a, b),
+                                    replay={"callable": "checks.c14:replay_combined_type", "kwargs": {"a": a, "b": b, "want": str(want)}, "confirmed": True})
+    for bad in ("int64", "float16", "object", "bool"):
+        try:
+            combined_type(bad, "float64")
+        except ValueError:
+            continue
+        return violated("combined_type accepts the unsupported dtype %s" % bad, signature="combined-type/reject", replay={"confirmed": True})
+    if check_type(None) != np.dtype("float64") or check_type(None, "complex64") != np.dtype("complex64"):
+        return violated("check_type(None) does not return the default", signature="check-type/default", replay={"confirmed": True})
+    return proved("exhaustive-table", "16 pairs x 2 spellings, 4 rejections, defaults")
+
+
+def replay_combined_type(a, b, want):
+    from bempp_cl.api.utils.data_types import combined_type
+
+    got = np.dtype(combined_type(a, b))
+    return {"violates": got != np.dtype(want), "observed": str(got), "required": want}
+
+
 def ob_potential_native():
     """bounded: composite real potential operators applied in all three forms, see replay_potential_composites"""
     rp = replay_potential_composites()
@@ -814,6 +851,7 @@ def main():
     run.add("boundary-operators.algebra", "post", ob_boundary_algebra)
     run.add("grid-functions.algebra", "post", ob_gridfunction_algebra)
     run.add("blocked-operators.algebra", "post", ob_blocked_algebra)
+    run.add("data_types.combined_type::table", "table", ob_combined_type)
     run.add("potential-operators.algebra", "post", ob_potential_algebra)
     run.add("potential-operators.algebra::native[octa, Laplace single + double layer, complex density]", "bounded", ob_potential_native)
     run.add("numeric.real-operator-on-complex-vector+sparse-classes", "bounded", ob_numeric_split)
